@@ -167,6 +167,23 @@ class Fn:
     def __repr__(self):
         return "<Fn %s>" % self.norm
 
+    def is_desugar_binding(self, local):
+        """`val` / `residual` bound by the desugaring of `?` (compiler-made, not a variable the author
+        wrote): named so, and defined once as the Continue / Break payload of a Try::branch result."""
+        nm = None
+        for n_, l, pj in self.var_places:
+            if l == local and not pj:
+                nm = re.sub(r"__\d+$", "", n_)
+        if nm not in ("val", "residual"):
+            return False
+        ds = self.defs(local)
+        if len(ds) != 1 or ds[0][0] != "assign" or ds[0][3].get("k") != "use":
+            return False
+        op = ds[0][3]["op"]
+        if op.get("k") not in ("move", "copy"):
+            return False
+        return any(e.get("k") == "downcast" and e.get("variant") in ("Continue", "Break") for e in op["place"]["proj"])
+
     @property
     def where(self):
         return "%s:%d" % (rel(self.file), self.line)
@@ -581,7 +598,7 @@ class ExprBuilder:
             return self.memo[key]
         if local in stack or depth > MAX_DEPTH:
             return ("cycle", local)
-        if self.user_stop and fn.locals[local]["user"] and local != 0:
+        if self.user_stop and fn.locals[local]["user"] and local != 0 and not fn.is_desugar_binding(local):
             r = ("place", place_to_str(fn, local, []), fn.locals[local]["ty"])
             self.memo[key] = r
             return r
